@@ -2,7 +2,7 @@
 # usage: tools/import_seeds.sh Cxx [Cyy ...] : copies /tmp/seed_Cxx/out/<name>/{patch.diff,demo.py,meta.json} to seeded/Cxx_<name>/
 cd "$(dirname "$0")/.." || exit 2
 for p in "$@"; do
-  for d in /tmp/seed_$p/out/*/ /tmp/seed2_$p/out/*/ /tmp/seed3_$p/out/*/ /tmp/seed4_$p/out/*/ /tmp/seed5_$p/out/*/ /tmp/seed6_$p/out/*/; do
+  for d in /tmp/seed_$p/out/*/ /tmp/seed2_$p/out/*/ /tmp/seed3_$p/out/*/ /tmp/seed4_$p/out/*/ /tmp/seed5_$p/out/*/ /tmp/seed6_$p/out/*/ /tmp/seed7_$p/out/*/; do
     [ -f "$d/patch.diff" ] && [ -f "$d/demo.py" ] || continue
     n=$(basename "$d"); mkdir -p "seeded/${p}_$n"; cp "$d/patch.diff" "$d/demo.py" "seeded/${p}_$n/"; [ -f "$d/meta.json" ] && cp "$d/meta.json" "seeded/${p}_$n/"
     echo "imported seeded/${p}_$n"
